@@ -27,6 +27,10 @@ import Tsg.Proofs.CheckerSafe
 import Tsg.Syntax.Load
 import Tsg.Props.C10
 import Tsg.Proofs.StrictSafeInterp
+import Tsg.Proofs.CheckerResolved
+import Tsg.Proofs.ParserUnresolved
+import Tsg.Proofs.LazySafeRun
+import Tsg.Proofs.ContractsSound
 
 namespace C05
 open Parser Checker
@@ -233,5 +237,120 @@ example (tree : Tree) (nd : TNode) (h0 : tree.node? 0 = some nd) :
       simp [m, QMatch.nodes, List.lookup, fullMatchName] at hmn
       obtain ⟨rfl, _⟩ := hmn
       simp [h0]
+
+/-- the checker's half of the contract is a theorem: every stanza of a file the checker accepts mentions only captures
+of its own query, and the checker leaves the shorthands as parsed -/
+theorem C05_checked_stanzas_resolved (nullable : String → Option Bool) (f f' : File) (h : Checker.check nullable f = .ok f') :
+    (∀ st ∈ f'.stanzas, StrictSafe.StanzaOK st) ∧ f'.shorthands = f.shorthands :=
+  Checker.check_stanzasOK nullable f f' h
+
+/-- the parser's half: no attribute shorthand of a parsed file carries a resolved capture -/
+theorem C05_parsed_shorthands_unresolved (o : POracle) (text : String) (f : File) (h : Parser.parse o text = .ok f) :
+    ∀ sh ∈ f.shorthands, StrictSafe.attrsCaps sh.attrs = [] :=
+  Parser.parse_shorthandsUnresolved o text f h
+
+/-- **Load, then execute strictly: no panic.** For EVERY text: if loading it (parser, then checker) yields a file, then
+executing that file strictly never reaches a panic site — for every tree, oracle, globals, cancellation flag, fuel and
+initial graph — under tree-sitter's contracts only (source slices, quantifiers of captures, the full-match node is a
+node of the tree) and the caller's (graph-node globals belong to the initial graph). -/
+theorem C05_load_then_strict_never_panics (o : POracle) (nullable : String → Option Bool) (text : String) (file : File)
+    (hload : Loader.load o nullable text = .loaded file)
+    (tree : Tree) (oracle : Oracle) (globals : GlobalsM) (la va ma : Option String)
+    (cancelAt : Option Nat) (fuel : Nat) (ms : List (List QMatch)) (g0 : CGraph)
+    (ht : StrictSafe.TreeOK tree) (hg : StrictSafe.GlobalsWf g0.nodes.length globals)
+    (hms : ∀ p ∈ file.stanzas.zip ms, ∀ m ∈ p.2, StrictSafe.MatchOK tree p.1 m) :
+    ∀ site, (Strict.run file tree oracle globals la va ma cancelAt fuel ms g0).outcome ≠ some (.panic site) := by
+  -- unfold the loader: parse ok, check ok
+  unfold Loader.load at hload
+  cases hp : Parser.parse o text with
+  | error e =>
+    rw [hp] at hload
+    cases e with
+    | err k => cases hload
+    | need q => cases q <;> cases hload
+    | outOfFuel => cases hload
+    | panic st => cases hload
+  | ok f0 =>
+    rw [hp] at hload
+    simp only at hload
+    cases hc : Checker.check nullable f0 with
+    | error e => rw [hc] at hload; cases e <;> cases hload
+    | ok f1 =>
+      rw [hc] at hload
+      simp only [LoadResult.loaded.injEq] at hload
+      subst hload
+      obtain ⟨hst, hsh⟩ := Checker.check_stanzasOK nullable f0 f1 hc
+      have hshort : ∀ sh ∈ f1.shorthands, StrictSafe.attrsCaps sh.attrs = [] := by
+        rw [hsh]; exact Parser.parse_shorthandsUnresolved o text f0 hp
+      exact StrictSafe.strict_never_panics f1 tree oracle globals la va ma cancelAt fuel ms g0 ht hg hshort
+        (fun p hp' => ⟨hst p.1 (List.of_mem_zip hp').1, hms p hp'⟩)
+
+/-- **Lazy execution never reaches a panic site** (both phases: building the lazy graph from the matches of the merged
+query, then evaluating the queued statements and forcing every thunk and scoped-variable cell) — for every file, tree,
+oracle, globals, cancellation flag, fuels and initial graph, under the same explicit contracts as the strict theorem, with
+`MergedOK` in place of `MatchOK`: the pattern index of a match of the merged query is the index of a stanza. The invariant
+is that every graph-node value and every thunk location held anywhere in the lazy state is in range. -/
+theorem C05_lazy_never_panics (file : File) (tree : Tree) (oracle : Oracle) (globals : GlobalsM) (la va ma : Option String)
+    (cancelAt : Option Nat) (fuel ef : Nat) (merged : List QMatch) (g0 : CGraph)
+    (ht : StrictSafe.TreeOK tree) (hg : StrictSafe.GlobalsWf g0.nodes.length globals)
+    (hsh : ∀ sh ∈ file.shorthands, StrictSafe.attrsCaps sh.attrs = [])
+    (hst : ∀ st ∈ file.stanzas, StrictSafe.StanzaOK st) (hm : ∀ m ∈ merged, LazySafe.MergedOK tree file.stanzas m) :
+    ∀ site, (Lazy.run file tree oracle globals la va ma cancelAt fuel ef merged g0).outcome ≠ some (.panic site) :=
+  LazySafe.lazy_never_panics file tree oracle globals la va ma cancelAt fuel ef merged g0 ht hg hsh hst hm
+
+/-- the merged-query contract is satisfiable: the stanza and match of the example above, as the only stanza of a file -/
+example (tree : Tree) (st : Stanza) (m : QMatch) (hm : StrictSafe.MatchOK tree st m) (hix : m.patternIx = 0) :
+    LazySafe.MergedOK tree [st] m := ⟨st, by rw [hix]; rfl, hm⟩
+
+/-- **Load, then execute lazily: no panic.** For EVERY text: if loading it yields a file, executing that file lazily never
+reaches a panic site, under tree-sitter's contracts only and the caller's (graph-node globals belong to the initial graph). -/
+theorem C05_load_then_lazy_never_panics (o : POracle) (nullable : String → Option Bool) (text : String) (file : File)
+    (hload : Loader.load o nullable text = .loaded file)
+    (tree : Tree) (oracle : Oracle) (globals : GlobalsM) (la va ma : Option String)
+    (cancelAt : Option Nat) (fuel ef : Nat) (merged : List QMatch) (g0 : CGraph)
+    (ht : StrictSafe.TreeOK tree) (hg : StrictSafe.GlobalsWf g0.nodes.length globals)
+    (hm : ∀ m ∈ merged, LazySafe.MergedOK tree file.stanzas m) :
+    ∀ site, (Lazy.run file tree oracle globals la va ma cancelAt fuel ef merged g0).outcome ≠ some (.panic site) := by
+  unfold Loader.load at hload
+  cases hp : Parser.parse o text with
+  | error e =>
+    rw [hp] at hload
+    cases e with
+    | err k => cases hload
+    | need q => cases q <;> cases hload
+    | outOfFuel => cases hload
+    | panic st => cases hload
+  | ok f0 =>
+    rw [hp] at hload
+    simp only at hload
+    cases hc : Checker.check nullable f0 with
+    | error e => rw [hc] at hload; cases e <;> cases hload
+    | ok f1 =>
+      rw [hc] at hload
+      simp only [LoadResult.loaded.injEq] at hload
+      subst hload
+      obtain ⟨hst, hsh⟩ := Checker.check_stanzasOK nullable f0 f1 hc
+      have hshort : ∀ sh ∈ f1.shorthands, StrictSafe.attrsCaps sh.attrs = [] := by
+        rw [hsh]; exact Parser.parse_shorthandsUnresolved o text f0 hp
+      exact LazySafe.lazy_never_panics f1 tree oracle globals la va ma cancelAt fuel ef merged g0 ht hg hshort hst hm
+
+/-- **The contracts are executable.** The hypotheses of the two theorems above about what the interpreters are given
+(sliceable byte ranges, graph-node globals inside the initial graph, matches that respect the quantifiers and carry a
+full-match node of the tree, pattern indices that are stanza indices) are implied by four Boolean checks
+(`Sem/Contracts.lean`), which the driver evaluates on every execution request of the correspondence runs: the evidence
+records on how many executed cases they held, i.e. on how many cases these theorems applied to the real inputs. -/
+theorem C05_checked_inputs_never_panic (o : POracle) (nullable : String → Option Bool) (text : String) (file : File)
+    (hload : Loader.load o nullable text = .loaded file)
+    (tree : Tree) (oracle : Oracle) (globals : GlobalsM) (la va ma : Option String)
+    (cancelAt : Option Nat) (fuel ef : Nat) (ms : List (List QMatch)) (merged : List QMatch) (g0 : CGraph)
+    (ht : Contracts.treeOKB tree = true) (hg : Contracts.globalsWfB g0.nodes.length globals = true)
+    (hms : Contracts.strictMatchesOKB tree file.stanzas ms = true)
+    (hm : Contracts.mergedAllOKB tree file.stanzas merged = true) (site : String) :
+    (Strict.run file tree oracle globals la va ma cancelAt fuel ms g0).outcome ≠ some (.panic site) ∧
+    (Lazy.run file tree oracle globals la va ma cancelAt fuel ef merged g0).outcome ≠ some (.panic site) :=
+  ⟨C05_load_then_strict_never_panics o nullable text file hload tree oracle globals la va ma cancelAt fuel ms g0
+      (Contracts.treeOKB_sound tree ht) (Contracts.globalsWfB_sound _ _ hg) (Contracts.strictMatchesOKB_sound tree _ ms hms) site,
+   C05_load_then_lazy_never_panics o nullable text file hload tree oracle globals la va ma cancelAt fuel ef merged g0
+      (Contracts.treeOKB_sound tree ht) (Contracts.globalsWfB_sound _ _ hg) (Contracts.mergedAllOKB_sound tree _ merged hm) site⟩
 
 end C05
